@@ -12,6 +12,8 @@ import sys
 from dataclasses import dataclass, field
 
 REPO = os.environ.get("VERIF_REPO", "/repo")
+# upstream modules parsed (read-only) for base-class facts; nothing else outside the package is loaded
+UPSTREAM_MODULES = ("dask._expr", "dask._task_spec", "dask.layers", "dask.base")
 PKG = "dask_array"
 
 
@@ -448,7 +450,7 @@ class Repo:
             return m
         if name in self._external_failed:
             return None
-        if self.site and (name == "dask" or name.startswith("dask.")):
+        if self.site and name in UPSTREAM_MODULES:
             base = os.path.join(self.site, *name.split("."))
             for path in (base + ".py", os.path.join(base, "__init__.py")):
                 if os.path.isfile(path):
